@@ -14,7 +14,8 @@ from harness.core.ctx import PY, VERIF
 from harness.checks import iter_common as I
 
 ASSUMPTIONS = ["'rejected by the decoder': a damage counts only if decoding that file alone fails; an *empty* uncompressed TFRecord file is a valid file of zero records "
-               "and an empty file is accepted by some codecs, so those are probed first and skipped when the decoder accepts them",
+               "and an empty file is accepted by some codecs, so those are probed first; when the format library accepts the file, only the weaker demand is made that a pass ending normally "
+               "still holds every example of the undamaged shards (silent truncation of the *rest* of the pass is a violation whatever the file was)",
                "bounded time = a watchdog of 60 s per pass (normal passes take < 2 s)"]
 TRUSTED = ["modelled-not-verified: executor / asyncio / tf.data error propagation, Rust panic behaviour"]
 WATCHDOG = 60
@@ -118,6 +119,8 @@ def format_group(args):
         dmg = g["damage"]
         if dmg == "deleted": f.unlink()
         elif dmg == "emptied": f.write_bytes(b"")
+        elif dmg == "zeroed": f.write_bytes(bytes(len(data)))               # same length, all zero bytes: blocks that were never flushed before a crash
+        elif dmg == "ones": f.write_bytes(b"\xff" * len(data))
         elif dmg == "garbage": f.write_bytes(bytes(rng.randrange(256) for _ in range(max(64, len(data)))))
         elif dmg == "tail-cut": f.write_bytes(data[: max(1, len(data) - 4)])                      # e.g. the CRC / length trailer of a gzip stream
         elif dmg == "tail-flip": f.write_bytes(data[:-3] + bytes([data[-3] ^ 0x10]) + data[-2:])
@@ -125,7 +128,8 @@ def format_group(args):
         res = {"damage": dmg, "pos": g["pos"], "passes": [], "skipped": False}
         if dmg != "deleted" and not reference_decoder_rejects(args["fmt"], args["comp"], f):
             res["skipped"] = True
-        if not res["skipped"]:
+        if True:
+            # (when the format library reads the damaged file without complaint the passes still run, under the weaker demand below)
             for a in g["passes"]:
                 t0 = time.time()
                 signal.alarm(args["watchdog"])
@@ -195,7 +199,7 @@ def run(ctx):
     for fi, (fmt, comp) in enumerate(fmts):
         nshards = 5
         root = ctx.scratch / f"c07_{fi}"
-        damages = ["deleted", "emptied", "garbage", "truncated", "tail-cut", "tail-flip"]
+        damages = ["deleted", "emptied", "garbage", "truncated", "tail-cut", "tail-flip", "zeroed", "ones"]
         positions = [0, nshards // 2, nshards - 1]
         ifaces = [i for i in I.IFACES if I.supports(i, fmt, comp)]
         plan = []
@@ -209,7 +213,8 @@ def run(ctx):
             # a sample, plus directed passes that are always there: every interface x {deleted, garbage} at the middle shard x
             # shuffle off/on at the larger parallelism (a sampling stride once dropped tf/shuffled/deleted from the quick tier)
             plan = [p for k, p in enumerate(plan) if (k * 7 + fi) % 5 == 0
-                    or (p[0] in ("deleted", "garbage") and p[1] == nshards // 2 and p[4] == (3 if p[2] in ("concurrent", "rust", "async", "tf") else 1))]
+                    or (p[0] in ("deleted", "garbage") and p[1] == nshards // 2 and p[4] == (3 if p[2] in ("concurrent", "rust", "async", "tf") else 1))
+                    or (p[0] in ("zeroed", "ones") and p[1] in (0, nshards // 2) and p[2] == "rust" and p[3] == 0)]
         by_damage = collections.defaultdict(list)
         for p in plan: by_damage[(p[0], p[1])].append(p)
         groups = [{"damage": d, "pos": pos, "passes": [{"iface": i, "shuffle": sh, "T": T} for (_, _, i, sh, T) in ps]} for (d, pos), ps in by_damage.items()]
@@ -222,7 +227,19 @@ def run(ctx):
             continue
         for g in res["groups"]:
             if g["skipped"]:
-                skipped += len(next(x for x in groups if x["damage"] == g["damage"] and x["pos"] == g["pos"])["passes"]); continue
+                # the format library reads the damaged file without complaint (e.g. a zero-filled FlatBuffers file is a table without
+                # fields): an interface may read it too — but a pass that ends normally still has every example of the *other* shards
+                skipped += len(g["passes"])
+                undamaged = [x for k_, x in enumerate(res["written"]) if k_ // 2 != g["pos"]]
+                for r in g["passes"]:
+                    r.update({"fmt": fmt, "comp": comp, "damage": g["damage"], "pos": g["pos"]})
+                    lost = sorted(set(undamaged) - set(r.get("got", []))) if r["outcome"] == "ended" else []
+                    if r["outcome"] == "hang" or lost or (r["outcome"] == "ended" and len(set(r["got"])) != len(r["got"])):
+                        ctx.report({"kind": r["outcome"], "iface": r["iface"], "decoder_tolerates": True},
+                                   f"{fmt}/{comp or '-'} shard {g['pos']} {g['damage']}: {r['iface']} shuffle={r['shuffle']} T={r['T']} -> {r['outcome']}"
+                                   + (f" without the examples {lost[:6]} of undamaged shards (yielded {r.get('n')} of {len(res['written'])})" if lost else ""),
+                                   {"case": {k: r[k] for k in ("fmt", "comp", "damage", "pos", "iface", "shuffle", "T")}, "result": r})
+                continue
             for r in g["passes"]:
                 r.update({"fmt": fmt, "comp": comp, "damage": g["damage"], "pos": g["pos"]})
                 results.append(r)
@@ -304,8 +321,8 @@ def run(ctx):
     ctx.cov["rust_fault_traces_accepted"] = len(faults) - len(fbad)
     ctx.cov.update({
         "evaluations": len(results) + len(pres), "distinct_nontrivial": len(distinct), "traces_validated_against_impl": len(pres) - len(corr_bad),
-        "skipped_because_decoder_accepts": skipped, "passes_that_delivered_everything_despite_damage": tolerated,
-        "rule": "datasets of 5 shards (fb, npz, tfrec; compressions); damage in {deleted, emptied, garbage, truncated to half, last 4 bytes cut, bit flipped in the last 3 bytes} at the first / middle / last shard; every interface, "
+        "passes_under_the_weaker_demand_because_the_format_library_accepts_the_file": skipped, "passes_that_delivered_everything_despite_damage": tolerated,
+        "rule": "datasets of 5 shards (fb, npz, tfrec; compressions); damage in {deleted, emptied, garbage, truncated to half, last 4 bytes cut, bit flipped in the last 3 bytes, zero-filled, 0xFF-filled} at the first / middle / last shard; every interface, "
                 "shuffle 0 and 4, file_parallelism 1 and 3; each pass in its own process under a 60 s watchdog; outcome must be 'raised' (or, when that interface's decoder tolerates the damage, the *complete* set of examples); plus the lazy pool with a failing "
                 "loader under the deterministic scheduler (trace accepted by M-POOL, ending in the re-raised terminal state)",
         "samples": results[:3],
